@@ -105,6 +105,20 @@ class ScriptedDownloader(Downloader):
         net = self.net
         url = f"{self.base}/{source_path}"
         net.log.append(url)
+        # which transfer task asked, and what it was answered (for the per-file retry accounting of C12)
+        t = asyncio.current_task()
+        uid = getattr(t, "_verif_uid", None)
+        if uid is None:
+            net._uidc = getattr(net, "_uidc", 0) + 1
+            uid = net._uidc
+            try:
+                t._verif_uid = uid
+            except Exception:
+                pass
+        entry = [uid, url, None]
+        if not hasattr(net, "task_log"):
+            net.task_log = []
+        net.task_log.append(entry)
         if net.budget is not None and len(net.log) > net.budget:
             raise RequestBudgetExceeded(f"request budget {net.budget} exceeded at {url}")
         net.inflight += 1
@@ -113,6 +127,7 @@ class ScriptedDownloader(Downloader):
         try:
             await net.gate(("req", url))
             r = net.next_resp(url)
+            entry[2] = r.kind
             if r.kind == "retry":
                 yield DownloadResponse(_stream=None, retry=True)
             elif r.kind == "missing":
